@@ -3,3 +3,6 @@ import Gomjml.Props.C02
 #print axioms Gomjml.Props.C02.C02_combined
 #print axioms Gomjml.Layout.C02_C03_all
 #print axioms Gomjml.Layout.wf_spec
+#print axioms Gomjml.Props.C02.C02_components
+#print axioms Gomjml.Props.C02.C02_component_inert
+#print axioms Gomjml.Expand.expand_spec
